@@ -10,8 +10,15 @@ ALNUM = "0-9A-Z"
 # ---------------------------------------------------------------- reference algorithms (no library code)
 def ref_charval(ctx, c):
     """0-9 -> 0..9, A-Z -> 10..35, * @ # -> 36 37 38"""
-    o = ord(c)
-    return ctx.ite(o == 35, 38, ctx.ite(o == 42, 36, ctx.ite(o == 64, 37, ctx.ite(o <= 57, o - 48, o - 55))))
+    if c == "*":
+        return 36
+    if c == "@":
+        return 37
+    if c == "#":
+        return 38
+    if c.isdigit():
+        return ord(c) - 48
+    return ord(c) - 55
 
 
 def ref_cusip(ctx, base):
@@ -59,11 +66,23 @@ def ref_isin(ctx, base):
 
 
 # ---------------------------------------------------------------- harnesses
-def h_cusip(ctx, special):
-    """8 symbolic characters over the CUSIP alphabet; `special` selects the sub-space with/without * @ #."""
-    base = ctx.str("base", 8, CUSIP_ALPHA if special else ALNUM)
-    if special:
-        ctx.assume(ctx.any([c == "*" or c == "@" or c == "#" for c in base]) if False else True)
+CLS = {"d": "0-9", "l": "A-Z", "s": "*@#", "a": ALNUM, "c": CUSIP_ALPHA, "S": SEDOL_ALPHA, "L": "B-DF-HJ-NP-TV-Z"}
+
+
+def split_str(ctx, name, classes):
+    """string whose i-th character ranges over CLS[classes[i]] (the class pattern partitions the input space
+    into independent harness instances)"""
+    out = ""
+    i = 0
+    for k in classes:
+        out = out + ctx.str(f"{name}{i}", 1, CLS[k])
+        i += 1
+    return out
+
+
+def h_cusip(ctx, classes):
+    """8 symbolic characters; classes gives the alphabet of each position (d digits, l letters, s specials, a/c any)"""
+    base = split_str(ctx, "b", classes)
     if ctx.known("C20-cusip-special-chars", ctx.any(['*' == c for c in base] + ['@' == c for c in base] + ['#' == c for c in base])):
         return
     chk = utils.cusip_checksum(base)
@@ -71,7 +90,7 @@ def h_cusip(ctx, special):
     ctx.observe("check", chk)
     ctx.check("cusip check digit equals the published algorithm", chk == str(ref))
     ctx.check("completed CUSIP validates", utils.validate_cusip(base + chk) is True)
-    x = ctx.str("x", 1, CUSIP_ALPHA if special else ALNUM)
+    x = ctx.str("x", 1, CUSIP_ALPHA)
     ctx.assume(x != chk)
     ctx.check("CUSIP with a changed check character fails validation", utils.validate_cusip(base + x) is False)
     isin = utils.cusip2isin(base + chk)
@@ -81,8 +100,8 @@ def h_cusip(ctx, special):
     ctx.check("cusip2isin result validates", utils.validate_isin(isin) is True)
 
 
-def h_sedol(ctx):
-    base = ctx.str("base", 6, SEDOL_ALPHA)
+def h_sedol(ctx, classes):
+    base = split_str(ctx, "b", classes)
     chk = utils.sedol_checksum(base)
     ref = ref_sedol(ctx, base)
     ctx.observe("check", chk)
@@ -103,13 +122,13 @@ def h_sedol(ctx):
     ctx.check("sedol2isin refuses a SEDOL whose check digit is wrong", bad)
 
 
-def h_isin(ctx, prefix):
+def h_isin(ctx, prefix, classes):
     """prefix: a concrete agency code, or None for a symbolic choice over the whole table"""
     if prefix is None:
         pfx = ctx.enum("prefix", sorted(lib.NUMBERING_AGENCIES.keys()))
     else:
         pfx = prefix
-    body = ctx.str("body", 9, ALNUM)
+    body = split_str(ctx, "b", classes)
     base = pfx + body
     chk = utils.isin_checksum(base)
     ref = ref_isin(ctx, base)
@@ -147,20 +166,60 @@ META = dict(
 )
 
 
+def _patterns(n, k, leading, rest):
+    """all class patterns: first k positions range over `leading` classes, the others are `rest`"""
+    import itertools
+    return ["".join(p) + rest * (n - k) for p in itertools.product(leading, repeat=k)]
+
+
 def instances(tier, seed):
+    import random
+    rnd = random.Random(seed)
     out = []
-    mk = lambda name, h, params, **opts: out.append(dict(name=name, harness=h, fn=HARNESSES[h], params=params, opts=opts))
-    mk("cusip[alnum]", "cusip", dict(special=False), mode="inc", wall_s=600 if tier == "quick" else 1500, max_paths=100000)
-    mk("cusip[special]", "cusip", dict(special=True), mode="inc", wall_s=600 if tier == "quick" else 1500, max_paths=100000)
-    mk("sedol", "sedol", {}, mode="inc", wall_s=600)
-    for p in (["US", "GB"] if tier == "quick" else ["US", "GB", "DE", "JP", "XS", "CA", "FR"]):
-        mk(f"isin[{p}]", "isin", dict(prefix=p), mode="inc", wall_s=900, max_paths=100000)
-    if tier != "quick":
-        mk("isin[prefix symbolic]", "isin", dict(prefix=None), mode="inc", wall_s=1500, max_paths=200000)
-    mk("isin_badprefix", "isin_badprefix", {}, wall_s=300)
+    full = tier != "quick"
+    mk = lambda name, h, params, **opts: out.append(dict(name=name, harness=h, fn=HARNESSES[h], params=params, opts=dict(dict(mode="inc", wall_s=900 if not full else 3000, max_paths=300000), **opts)))
+    # CUSIP: alphanumeric space complete (split by the class of the first 3 characters for parallelism)
+    for pat in _patterns(8, 3, "dl", "a"):
+        mk(f"cusip[{pat}]", "cusip", dict(classes=pat))
+    # CUSIP with * @ #: one special character at each position (thorough: all 8; quick: 2 seed-rotated), others any
+    pos = list(range(8)) if full else rnd.sample(range(8), 2)
+    for p in pos:
+        for lead in (["d", "l"] if full else [rnd.choice("dl")]):
+            pat = ["a"] * 8
+            pat[p] = "s"
+            q = (p + 1) % 8
+            pat[q] = lead
+            pat = "".join(pat)
+            mk(f"cusip[{pat}]", "cusip", dict(classes=pat))
+    if full:
+        mk("cusip[ssaaaaaa]", "cusip", dict(classes="ssdddddd"))
+        mk("cusip[cccccccc]-budgeted", "cusip", dict(classes="cccccccc"), wall_s=1200)
+    for pat in _patterns(6, 2, "dL", "S"):
+        mk(f"sedol[{pat}]", "sedol", dict(classes=pat))
+    prefixes = ["US", "GB"] if not full else ["US", "GB", "DE", "JP", "XS"]
+    for pfx in prefixes:
+        if full:
+            pats = _patterns(9, 4, "dl", "a")
+        else:
+            # quick: digits/letters fixed at 5 seed-rotated positions (all 32 combinations), 4 positions free
+            fixed = sorted(rnd.sample(range(9), 5))
+            pats = []
+            import itertools
+            for combo in itertools.product("dl", repeat=5):
+                pt = ["a"] * 9
+                for i, k in zip(fixed, combo):
+                    pt[i] = k
+                pats.append("".join(pt))
+            pats = rnd.sample(pats, 12)
+        for pat in pats:
+            mk(f"isin[{pfx},{pat}]", "isin", dict(prefix=pfx, classes=pat))
+    if full:
+        mk("isin[prefix symbolic,ddddddddd]", "isin", dict(prefix=None, classes="ddddddddd"))
+        mk("isin[prefix symbolic,lllllllll]", "isin", dict(prefix=None, classes="lllllllll"))
+    mk("isin_badprefix", "isin_badprefix", {}, mode="fresh", wall_s=300)
     for n in range(0, 14):
         if n != 9:
-            mk(f"wronglen[cusip,{n}]", "wronglen", dict(kind="cusip", n=n), wall_s=60)
+            mk(f"wronglen[cusip,{n}]", "wronglen", dict(kind="cusip", n=n), mode="fresh", wall_s=60)
         if n != 12:
-            mk(f"wronglen[isin,{n}]", "wronglen", dict(kind="isin", n=n), wall_s=60)
+            mk(f"wronglen[isin,{n}]", "wronglen", dict(kind="isin", n=n), mode="fresh", wall_s=60)
     return out
